@@ -47,7 +47,13 @@ def spec_cfgs(tier: str) -> List[Any]:
     gs = dg.grammars("one")
     if tier == "quick":
         gs = gs[:120]
-    for g in gs:
+    # two nonterminals, the second with a single one-symbol alternative: a class that is only
+    # *equivalent* to an atom (or to the first nonterminal) sits where the one-nonterminal
+    # grammars have the atom itself
+    two = [g for g in dg.grammars("two") if len(g[1]) == 1 and len(g[1][0]) == 1]
+    if tier != "quick":
+        two += [g for g in dg.grammars("two") if g not in two and len(g[1]) == 1][:200]
+    for g in list(gs) + two:
         res.append(GCfg(g, (), "g", "RuleDB"))
     return res
 
